@@ -489,6 +489,8 @@ def gen_store_case(rng, prop, tier):
                  "oddtags": rng.choice([None, "values", "values", "header-only"]),
                  "extras": rng.choice([[], ["nogt"], ["multi"], ["nogt", "multi"]])}
         render_odd(rng, w, knobs)
+        if rng.random() < 0.12:
+            knobs["no_contig_lines"] = w["no_contig_lines"] = True
         n = rng.choice([1, 2, 3])
         ops = [{"op": "unphase"} for _ in range(n)]
         return {"machine": "store", "world": W.clean_world(w), "ops": ops, "knobs": knobs, "state0": []}
@@ -507,6 +509,8 @@ def gen_store_case(rng, prop, tier):
         "decoys": rng.random() < 0.35,
     }
     state0 = render_initial(rng, w, prop, knobs)
+    if prop == "C13" and rng.random() < 0.1:
+        knobs["no_contig_lines"] = w["no_contig_lines"] = True
     samples = w["samples"]
     chroms = [c["name"] for c in w["chroms"]]
     n_ops = rng.choice([1, 2, 2, 3, 3, 4, 5, 6])
@@ -942,6 +946,8 @@ class StoreRun:
         shapes = sorted({gt_shape(r["calls"][s]["gt"], r["calls"][s]["phased"]) for r in in_recs for s in in_samples})
         for sh in shapes:
             self.stats.inc("unphase_input_shape_" + sh)
+        if self.world.get("no_contig_lines"):
+            self.stats.inc("unphase_input_without_contig_lines")
         from whatshap.cli import CommandLineError
 
         try:
@@ -951,8 +957,9 @@ class StoreRun:
             site = [l for l in tb.strip().splitlines() if l.strip().startswith("File")][-1].split(", in ")[-1]
             odd_shapes = [sh for sh in shapes if sh not in ("diploid", "diploid-phased", "diploid-missing")]
             self.add("C13", "unphase-crashed",
-                     "%s raised %s: %s on a well-formed VCF with call shapes %s" % (what, type(e).__name__, e, shapes),
-                     "unphase-crashed:%s" % type(e).__name__)
+                     "%s raised %s: %s (in %s) on a well-formed VCF with call shapes %s%s" % (
+                         what, type(e).__name__, e, site, shapes, ", header without ##contig lines" if self.world.get("no_contig_lines") else ""),
+                     "unphase-crashed:%s:%s" % (type(e).__name__, site))
             return False
         self.stats.inc("op_unphase")
         try:
